@@ -109,6 +109,12 @@ def cases(tier, only=None):
             else:
                 L.append(("hashkernel", f, (alg, func, ln, 1, False, rs)))
                 L.append(("hashkernel", f, (alg, func, ln, 2, True, rs)))
+    if only is not None and "mhkernel" in only:
+        import hashk
+        for (alg, fpat, fnpat) in hashk.MH_KERNELS:
+            for fam in hashk.MH_FAMS:
+                # quick: one 1024-byte block; thorough: two blocks in one call (closes the block loop: state carried in registers / reloaded)
+                L.append(("mhkernel", (fpat % fam,), (alg, "_" + fnpat % fam, 1 if q else 2)))
     if only is None or "gcmdata" in only or "gcmstream" in only:
         for (k, f, p_) in gcm_cases(tier):
             if only is None or k in only:
@@ -134,6 +140,9 @@ def _work(arg):
         elif kind == "hashkernel":
             import hashk
             o = hashk.kernel_case(img, *params)
+        elif kind == "mhkernel":
+            import hashk
+            o = hashk.mh_case(img, *params)
         elif kind == "gcmdata":
             o = gcm_data_case(img, *params)
         elif kind == "gcmstream":
@@ -158,7 +167,7 @@ def run(pid, tier, ev, vd, only=None, also_tags=()):
     cl = cases(tier, only)
     args = [(k, f, p, wd) for (k, f, p) in cl]
     with multiprocessing.get_context("fork").Pool(common.NPROC) as pool:
-        res = pool.map(_work, args, chunksize=2)
+        res = pool.map(_work, args, chunksize=2 if len(args) > 64 else 1)
     nprob = 0
     for r in res:
         ev.add("states", 1)
